@@ -84,3 +84,5 @@ func (r *Rand) Perm(n int) []int {
 	}
 	return p
 }
+
+func (r *Rand) PickStr(xs ...string) string { return xs[r.Intn(len(xs))] }
